@@ -14,6 +14,18 @@ TRUSTED_BASE = [
 ]
 
 PLAN = {
+    "C13": {
+        "level": "exploration",
+        "bounded": ["bounded.c13"],
+    },
+    "C04": {
+        "level": "exploration",
+        "bounded": ["bounded.c04"],
+    },
+    "C05": {
+        "level": "exploration",
+        "bounded": ["bounded.c05"],
+    },
     "C10": {
         "level": "proof",
         "contracts": ["contracts.tree"],
